@@ -330,6 +330,19 @@ def search_c09(rng, n, kinds=("cart1", "cart2", "cyl2", "pol2", "sph1", "cart3",
                     indep = np.array_equal(np.asarray(v._value), before[0], equal_nan=True) and (before[1] is None or v.BCs._state_token() == before[1]) \
                         and not np.shares_memory(np.asarray(w._value), np.asarray(v._value)) and w.BCs is not v.BCs
                     S.check(bool(eq and indep), "C09:copy-independent", "copy() is not equal to / independent of its original", {**inp, "step": k}, None, None)
+                if op[0] in ("editVal", "editBC") and out != "invalid":
+                    # readers other than the solvers: means / gradients built from a variable right after an edit must see ghost
+                    # cells that reflect the edit (what a freshly constructed variable would show)
+                    cand = [x for x in W.vars if (op[0] == "editVal" and x is W.vars[op[1]]) or (op[0] == "editBC" and x.BCs is W.bcs[op[1]])]
+                    for v in cand[:1]:
+                        f = W.fresh_equivalent(v)
+                        ga = [np.asarray(z) for z in (pf.linearMean(v)._xvalue, pf.gradientTerm(v)._xvalue)]
+                        gb = [np.asarray(z) for z in (pf.linearMean(f)._xvalue, pf.gradientTerm(f)._xvalue)]
+                        okr = all(np.allclose(x, y, rtol=1e-12, atol=1e-13, equal_nan=True) for x, y in zip(ga, gb))
+                        S.check(bool(okr), "stale-ghosts-read-by-term-builders",
+                                "linearMean / gradientTerm of a variable right after an edit of its values or boundary conditions use the ghost cells of before the edit "
+                                "(they differ from those of a freshly constructed variable with the same interior values and boundary conditions)",
+                                {**inp, "step": k}, [x.ravel().tolist()[:6] for x in ga], [x.ravel().tolist()[:6] for x in gb])
                 if op[0] == "updateValue" and out != "invalid" and op[1] != op[2]:
                     # update_value transfers values, it must not tie the two variables together: an in-place edit of the source afterwards
                     v = W.vars[op[1]]; w = W.vars[op[2]]
